@@ -1,7 +1,9 @@
 package mon
 
 import (
+	"encoding/json"
 	"fmt"
+	"math/big"
 	"math/rand/v2"
 	"strings"
 
@@ -362,6 +364,9 @@ type c02Invalid struct {
 	Src   string
 	C     string // the computed source inside Src
 	Input run.TV
+	// Orig/Comp: the case applies only if these two programs yield different values (a computed scalar that happens
+	// to equal the value at the location IS that location)
+	Orig, Comp string
 }
 
 var kC02Invalid = run.NewKind("c02.invalid-path", func(c *run.Ctx, t c02Invalid) *run.Fail {
@@ -369,6 +374,13 @@ var kC02Invalid = run.NewKind("c02.invalid-path", func(c *run.Ctx, t c02Invalid)
 		// the computed source must produce a value on this input, otherwise there is nothing to navigate from
 		if pre := eval("[limit(1; "+t.C+")] | length", run.DeepCopy(t.Input.V)); pre.End != run.EndOK || len(pre.Vals) != 1 || run.Canon(pre.Vals[0]) != "1" {
 			c.Inconclusive("computed-source-yields-nothing")
+			return nil
+		}
+	}
+	if t.Orig != "" {
+		o, n := eval(t.Orig, run.DeepCopy(t.Input.V)), eval(t.Comp, run.DeepCopy(t.Input.V))
+		if o.End != run.EndOK || n.End != run.EndOK || len(o.Vals) != 1 || len(n.Vals) != 1 || model.Cmp(o.Vals[0], n.Vals[0]) == 0 || run.Canon(o.Vals[0]) == run.Canon(n.Vals[0]) {
+			c.Inconclusive("computed-scalar-equals-the-location's-value")
 			return nil
 		}
 	}
@@ -475,6 +487,53 @@ func init() {
 					}
 				}
 			}
+			// interleaved path expressions: a path expression with generators inside value-mode sub-expressions is
+			// suspended while its consumer runs another path expression, then resumed; the result must be what running
+			// the outer expression to completion first gives
+			{
+				outers := []string{".a | select((true, true))", ".[]? | select((.b?, .c?) > 0)", ".[]? | select(.tags[]? == \"x\") | .n", ".[(0, 1)]?", ".[]? | if (true, false) then .n? else .tags? end", ".a?, .e?", ".[]? | .n? | select((1, 2) > 0)",
+					"first(.[]? | select((true, true)))", ".[]? | limit((1, 2); .tags[]?)", ".. | select(type == (\"object\", \"array\"))", ".[]? | select([.tags[]?] | length > (0, 1))", "(.a?, .[0]?) | select((1, 2, 3) > 1)", ".[]? | .[(\"n\", \"tags\")]?",
+					".[]? | select(any(.tags[]?; . == \"x\")) | .n.c?", "(.[]? | select((.n?, .tags?))) , .a?", ".. | select((type == \"number\"), (type == \"string\"))"}
+				inners := []string{".e?", ".[0]?.n?.c?", "..", ".[]? | .tags?[0]?", ".a?.b?", ".[1:]?", ".[]? | select(.n?)", ".a?, .e?, .[]?"}
+				ins := []any{map[string]any{"a": 1, "e": 1}, []any{map[string]any{"tags": []any{"x", "x"}, "n": map[string]any{"c": 0}, "b": 1, "c": 2}, map[string]any{"tags": []any{"x"}, "n": map[string]any{"c": 0}, "b": 0, "c": 3}},
+					map[string]any{"a": map[string]any{"b": []any{1, 2}}, "e": []any{map[string]any{"n": 1, "tags": []any{"y"}}}}, []any{[]any{1, 2}, []any{3}, "s"}}
+				for oi, o := range outers {
+					for ii, inn := range inners {
+						if c.Quick() && (oi+ii)%2 == 1 {
+							continue
+						}
+						obs := "(try [path(" + inn + ")] catch \"E\"), (try (del(" + inn + ") | tojson | length) catch \"E\"), (try ((" + inn + ") |= . | tojson | length) catch \"E\")"
+						L := "[path(" + o + ") as $p | [$p, " + obs + "]]"
+						R := "[path(" + o + ")] as $ps | [" + obs + "] as $obs | [$ps[] | [.] + $obs]"
+						for _, in := range ins {
+							kC02Pair.Do(c, c02Pair{L: L, R: R, Input: run.TV{V: in}, What: "interleaved path expressions", P: ""})
+						}
+						// the same with an update as the consumer
+						L2 := "[(" + o + ") |= (try ((" + inn + ") |= .) catch .)]"
+						kC02Pair.Do(c, c02Pair{L: L2, R: "[" + redModify("("+o+")", "try (("+inn+") |= .) catch .") + "]", Input: run.TV{V: ins[(oi+ii)%len(ins)]}, What: "|= with an update inside", P: ""})
+					}
+				}
+			}
+			// plain assignment through element, slice and index paths in every order, with right-hand sides shorter,
+			// equal and longer than the slices (an array updated in place must not keep a stale tail or lose elements)
+			{
+				ps := []string{".[0]", ".[1]", ".[4]", ".[5]", ".[-1]", ".[1:4]", ".[:2]", ".[2:]", ".[1:3]", ".[3]", ".q[0]", ".q[1:4]", ".q[4]", ".[7]"}
+				xs := []string{"[]", "[9]", "[8, 9]", "[7, 8, 9, 9, 9]", "null", ".[0]"}
+				ins := []any{[]any{1, 2, 3, 4, 5}, []any{"a", "b", "c", "d", "e", "f"}, map[string]any{"q": []any{"a", "b", "c", "d", "e"}}}
+				for i, p1 := range ps {
+					for j, p2 := range ps {
+						for k, p3 := range ps {
+							if c.Quick() && (i+j+k)%3 != 0 {
+								continue
+							}
+							x := xs[(i*5+j*3+k)%len(xs)]
+							in := ins[(i+j+k)%len(ins)]
+							p := combo(p1, p2, p3)
+							kC02Pair.Do(c, c02Pair{L: p + " = (" + x + ")", R: redAssign(p, x), Input: run.TV{V: in}, What: "=", P: ""})
+						}
+					}
+				}
+			}
 			// all ordered pairs of atoms, every sub-check family sampled per pair
 			reps := c.N(6, 24)
 			for _, a := range atoms {
@@ -552,6 +611,33 @@ func init() {
 				// empty constructed containers: there is nothing to iterate, but the navigation is just as invalid
 				{"[]", ".[]"}, {"{}", ".[]"}, {"[empty]", ".[]"}, {"[]", ".[0]"}, {"{}", ".a"}, {"[]", ".[1:]"}, {"[.[]? | select(false)]", ".[]"}, {"(map(select(false))? // [])", ".[]"}, {"({} | with_entries(.))", ".[]"},
 				{"[[]]", ".[0][]"}, {"{a: []}", ".a[]"}, {"{a: {}}", ".a[]"}, {"[]", "first(.[])"}, {"[]", ".[]?, .[]"}, {"(. as $x | [])", ".[]"}, {"[limit(0; 1)]", ".[]"},
+			}
+			// a scalar computed from the value at a location, different from it by as little as possible (integers
+			// beyond 2^53 that share their float64, in every representation), is not that location
+			{
+				big1, _ := new(big.Int).SetString("100000000000000000000000000001", 10)
+				scal := []any{9007199254740993, json.Number("9007199254740993"), new(big.Int).SetInt64(9007199254740993), big1, json.Number("100000000000000000000000000001"), 18014398509481985, 1, 1.5, json.Number("1.0"), "a", true, nil,
+					json.Number("9223372036854775807"), 4611686018427387905, json.Number("-9007199254740993"), json.Number("1e400")}
+				for i := range scal {
+					var ops []string
+					switch scal[i].(type) {
+					case string:
+						ops = []string{". + \"x\"", "ascii_downcase + \"b\""}
+					case bool, nil:
+						ops = []string{"not", "[.] | length"}
+					default:
+						ops = []string{". + 1", ". - 1", ". + 2 - 1", "-(.)|-(.)|. + 1", ". * 1 + 1", "tostring", "[.] | length"}
+					}
+					for _, op := range ops {
+						for _, ctx := range []string{"path(.[%d] | %s)", "(.[%d] | %s) |= 1", "(.[%d] | %s) = 1", "del(.[%d] | %s)", "path(.[%d] | %s | .)", "path(first(.[%d] | %s))", "path(.[%d] as $v | .[%d] | %s)"} {
+							src := fmt.Sprintf(ctx, i, op)
+							if strings.Count(ctx, "%") == 3 {
+								src = fmt.Sprintf(ctx, i, i, op)
+							}
+							kC02Invalid.Do(c, c02Invalid{Src: src, C: "", Input: run.TV{V: scal}, Orig: fmt.Sprintf(".[%d]", i), Comp: fmt.Sprintf(".[%d] | %s", i, op)})
+						}
+					}
+				}
 			}
 			ctxs := []string{"path(%s | %s)", "[paths] | length | path(%s | %s)?, (%s | %s) |= 1", "(%s | %s) |= 1", "(%s | %s) = 1", "del(%s | %s)", "(%s | %s) += 1", "[path(.. | %s | %s)]", "path(.[]? | %s | %s)", "path(first(%s) | %s)", "path(if true then %s else . end | %s)", "try ((%s | %s) |= 1) catch error", "path((., %s) | %s) | select(length > 5)"}
 			for _, s := range sources {
